@@ -265,7 +265,7 @@ PROP = dict(
                   "translator's go/ast walk of wscreen.go: WebKeyNames/palette tables with constants evaluated by go/types; lock skeleton (Lock/Unlock/defer/return/if/loop) of every *wScreen method, loops abstracted to 0-or-1 iterations, callee locking classified transitively",
                   "hand-written model of wScreen.draw/drawCell/SetSize/onKeyEvent/onMouseEvent over the C08 buffer model, tied by the differential run under Node"],
     assumptions=["the page is the abstract grid updated by drawCell/clearScreen/resize calls (what tcell.js keeps in content.data); CSS rendering of a cell is out of scope",
-                 "cells hidden behind a wide rune and locked cells are not compared; a zero-width rune is not used as the main rune of a cell and SetStyle is not changed between Shows in the history theorem (the oracle does not need either)",
+                 "cells hidden behind a wide rune and locked cells are not compared; a zero-width rune is not stored with SetContent as the main rune of a cell (Fill takes ANY rune: page_faithful is generic in the Fill variant, fz = Tcell.currentFillBlanksZeroWidth being the tree as it is) and SetStyle is not changed between Shows in the history theorem (the oracle does not need either); LockRegion is modelled with its re-dirtying of a wide rune left of a really unlocked row (Tcell.lockRowsG, shared with C01/C13/C18)",
                  "JavaScript callbacks arrive one at a time on the single js/wasm thread and the application polls events (the 10-slot queue is not filled)",
                  "key names: the theorem and the exhaustive run quantify over the names of the regenerated table; KeyboardEvent.key values outside it (e.g. PageUp) fall through to the rune path and are outside the statement"],
 )
